@@ -107,3 +107,18 @@ func (f *file) Slice(start int64, end int64) ([]byte, error) {
 	f.h.call(Event{Op: "slice", Name: f.name})
 	return f.File.Slice(start, end)
 }
+
+func (h *FS) MkdirAll(path string, perm os.FileMode) error {
+	h.call(Event{Op: "mkdir", Name: path})
+	return h.FileSystem.MkdirAll(path, perm)
+}
+
+func (h *FS) Stat(name string) (os.FileInfo, error) {
+	h.call(Event{Op: "stat", Name: name})
+	return h.FileSystem.Stat(name)
+}
+
+func (h *FS) ReadDir(name string) ([]os.DirEntry, error) {
+	h.call(Event{Op: "readdir", Name: name})
+	return h.FileSystem.ReadDir(name)
+}
